@@ -89,7 +89,11 @@ impl Inflection {
             Inflection::Upper => string.to_uppercase(),
             Inflection::Camel => {
                 let pascal = Inflection::apply(Inflection::Pascal, string);
-                pascal[..1].to_ascii_lowercase() + &pascal[1..]
+                let mut chars = pascal.chars();
+                match chars.next() {
+                    Some(first) => first.to_ascii_lowercase().to_string() + chars.as_str(),
+                    None => pascal,
+                }
             }
             Inflection::Snake => {
                 let mut s = String::new();
